@@ -366,6 +366,22 @@ dt_ymd_t UNREACH___ymd_add_y(dt_ymd_t d, int n) UNREACH_CONTRACT;
 dt_ymd_t UNREACH___ymd_add_m(dt_ymd_t d, int n) UNREACH_CONTRACT;
 dt_yd_t UNREACH___yd_add_y(dt_yd_t d, int n) UNREACH_CONTRACT;
 struct dt_d_s UNREACH_dt_dadd_m(struct dt_d_s d, int n) UNREACH_CONTRACT;
+int UNREACH_dt_get_mon(struct dt_d_s that) UNREACH_CONTRACT;
+int UNREACH_dt_get_wcnt_year(struct dt_d_s this, unsigned int wkcnt_convention) UNREACH_CONTRACT;
+int UNREACH_dt_get_wcnt_mon(struct dt_d_s that) UNREACH_CONTRACT;
+int UNREACH_dt_get_quarter(struct dt_d_s that) UNREACH_CONTRACT;
+dt_dow_t UNREACH_dt_get_wday(struct dt_d_s that) UNREACH_CONTRACT;
+size_t UNREACH_arritostr(char *restrict buf, size_t bsz, size_t i, const char *const *tbl, size_t ntbl) UNREACH_CONTRACT;
+#if !defined VERIF_NATIVE
+int UNREACH_verif_snprintf(char *b, size_t z) UNREACH_CONTRACT;
+#endif
+int UNREACH_dt_get_mday(struct dt_d_s that) UNREACH_CONTRACT;
+struct __md_s UNREACH_dt_get_md(struct dt_d_s that) UNREACH_CONTRACT;
+int UNREACH_dt_get_bday_q(struct dt_d_s that, dt_bizda_param_t bp) UNREACH_CONTRACT;
+unsigned int UNREACH___bizda_get_yday(dt_bizda_t that, dt_bizda_param_t bp) UNREACH_CONTRACT;
+unsigned int UNREACH___bizda_get_mday(dt_bizda_t that) UNREACH_CONTRACT;
+struct dt_d_s UNREACH_dt_dadd_d(struct dt_d_s d, int n) UNREACH_CONTRACT;
+struct dt_d_s UNREACH_dt_dadd_w(struct dt_d_s d, int n) UNREACH_CONTRACT;
 struct dt_d_s UNREACH_dt_dadd_y(struct dt_d_s d, int n) UNREACH_CONTRACT;
 
 /* ---- dispatchers in date-core.c */
